@@ -26,7 +26,7 @@ Init0 ==
    reg |-> [s \in Side |-> TRUE], hasq |-> [s \in Side |-> TRUE], queue |-> [s \in Side |-> <<>>],
    cb |-> [s \in Side |-> "none"], wantEnd |-> [s \in Side |-> FALSE], ends |-> [s \in Side |-> 0],
    cbgot |-> [s \in Side |-> 0], rgot |-> [s \in Side |-> 0], eof |-> [s \in Side |-> FALSE], dropped |-> [s \in Side |-> 0],
-   awaits |-> [s \in Side |-> FALSE], wire |-> [s \in Side |-> <<>>], sent |-> [s \in Side |-> 0], lateData |-> [s \in Side |-> 0]]
+   awaits |-> [s \in Side |-> FALSE], errs |-> [s \in Side |-> 0], rerr |-> [s \in Side |-> 0], wire |-> [s \in Side |-> <<>>], sent |-> [s \in Side |-> 0], lateData |-> [s \in Side |-> 0]]
 
 \* ---------------------------------------------------------------- helpers
 \* ChannelFactory._no_longer_opened(id)
@@ -52,16 +52,18 @@ SetCb(st, s, kind) ==      \* kind: "plain" | "end"
 CanReceive(st, s) == st.obj[s] = "alive" /\ st.hasq[s] /\ st.queue[s] # <<>>
 Receive(st, s) ==
   IF Head(st.queue[s]) = "d" THEN [st EXCEPT !.queue[s] = Tail(@), !.rgot[s] = @ + 1]
-  ELSE [st EXCEPT !.eof[s] = TRUE]        \* the ENDMARKER is put back for other receivers
+  ELSE IF st.errs[s] > 0 THEN [st EXCEPT !.errs[s] = @ - 1, !.rerr[s] = @ + 1]      \* the pending RemoteError is raised, once
+  ELSE [st EXCEPT !.eof[s] = TRUE]        \* EOFError; the ENDMARKER is put back for other receivers
 
 \* Channel.close() - explicit on L, executetask's at the end of the body on R
 CanClose(st, s) == st.obj[s] = "alive"
-Close(st, s) ==
+CloseWith(st, s, frame) ==          \* frame: "close" | "error" (close(errortext): the remote code failed)
   IF st.closed[s] THEN st
   ELSE LET announce == ~st.rc[s] \/ (Fix_CloseFromSendonly /\ st.awaits[s])
-           s1 == IF announce THEN Put(st, s, "close") ELSE st
+           s1 == IF announce THEN Put(st, s, frame) ELSE st
            s2 == [s1 EXCEPT !.closed[s] = TRUE, !.rc[s] = TRUE, !.queue[s] = IF st.hasq[s] THEN Append(@, "E") ELSE @]
        IN Nlo(s2, s)
+Close(st, s) == CloseWith(st, s, "close")
 
 \* the last reference goes away: Channel.__del__, and the weak _channels entry disappears
 CanDrop(st, s) == st.obj[s] = "alive"
@@ -80,9 +82,10 @@ Deliver(st, s) ==
          IF s0.cb[s] # "none" THEN [s0 EXCEPT !.cbgot[s] = @ + 1, !.lateData[s] = IF s0.ends[s] > 0 THEN @ + 1 ELSE @]
          ELSE IF s0.reg[s] /\ s0.hasq[s] THEN [s0 EXCEPT !.queue[s] = Append(@, "d")]
          ELSE [s0 EXCEPT !.dropped[s] = @ + 1]
-    [] m \in {"close", "last"} ->   \* _local_close(id, sendonly = (m = "last"))
-         IF ~s0.reg[s] THEN Nlo(s0, s)
-         ELSE LET s1 == [s0 EXCEPT !.closed[s] = IF m = "close" THEN TRUE ELSE @,
+    [] m \in {"close", "error", "last"} ->   \* _local_close(id, remoteerror if m = "error", sendonly = (m = "last"))
+         IF ~s0.reg[s] THEN Nlo(s0, s)          \* the error of a channel in "deleted" state is only warned about
+         ELSE LET s1 == [s0 EXCEPT !.closed[s] = IF m # "last" THEN TRUE ELSE @,
+                                    !.errs[s] = IF m = "error" THEN @ + 1 ELSE @,
                                     !.queue[s] = IF s0.hasq[s] THEN Append(@, "E") ELSE @,
                                     !.awaits[s] = IF m = "last" THEN TRUE ELSE @]
               IN [Nlo(s1, s) EXCEPT !.rc[s] = TRUE]
@@ -98,6 +101,7 @@ Next ==
   \/ CanClose(st, "L") /\ st' = Close(st, "L")
   \/ CanDrop(st, "L") /\ st' = Drop(st, "L")
   \/ CanClose(st, "R") /\ ~st.closed["R"] /\ st' = Drop(Close(st, "R"), "R")     \* the body ends
+  \/ CanClose(st, "R") /\ ~st.closed["R"] /\ st' = Drop(CloseWith(st, "R", "error"), "R")     \* the body raises
 Spec == Init /\ [][Next]_st
 
 \* ---------------------------------------------------------------- properties
